@@ -14,6 +14,7 @@ func main() {
 		"C01": c01(),
 		"C04": c04(),
 		"C06": c06(),
+		"C19": c19(),
 		"C20": c20(),
 	})
 }
